@@ -68,6 +68,8 @@ def quick():
     c.append(Cfg("two_tol_backward", (DS("ds1", T2, (0.0, 1.0, 2.0)), DS("ds2", T2, (0.25, 0.75, 2.1))), groups={"default": (True, VP)}, tol=0.3, method="backward"))
     # several megacomplexes
     c.append(Cfg("mc_shared_labels_scales", (DS("ds1", T3, (0.0, 1.0), megacomplexes=("m1", "m2"), mc_scales=True, scale=True),), megacomplexes=M2, groups={"default": (False, VP)}))
+    # a linked group whose first dataset has an index-dependent matrix and whose second has not, sharing several aligned indices
+    c.append(Cfg("linked_dep_before_indep", (DS("ds1", T2, (0.0, 1.0, 2.0), megacomplexes=("m2",)), DS("ds2", T3, (1.0, 2.0, 3.0), megacomplexes=("m1",))), megacomplexes=M2D, groups={"default": (True, VP)}))
     c.append(Cfg("mc_mixed_dep", (DS("ds1", T2, (0.0, 1.0), megacomplexes=("m1", "m2"), mc_scales=True),), megacomplexes=M2D, groups={"default": (False, VP)}))
     c.append(Cfg("mc_three", (DS("ds1", T2, (0.0, 1.0), megacomplexes=("m1", "m2", "m3"), mc_scales=True),), megacomplexes=M3, groups={"default": (True, VP)}))
     # constraints / relations
